@@ -847,6 +847,14 @@ fn build(pr: &Prob, pfull: bool, st: &DefaultSettings<f64>) -> DefaultSolver<f64
 fn solve(pr: &Prob, pfull: bool, st: &DefaultSettings<f64>) -> RunOut {
     let mut s = build(pr, pfull, st);
     s.solve();
+    if std::env::var("VERIF_DEBUG").is_ok() {
+        let px = matvec(&pr.P, &s.solution.x);
+        let xpx = dot(&s.solution.x, &px);
+        let bz = dot(&pr.b, &s.solution.z);
+        let qx = dot(&pr.q, &s.solution.x);
+        let l1 = |v: &[f64]| v.iter().map(|x| x.abs()).fold(0.0, f64::max);
+        eprintln!("DBG status={:?} it={} pobj={:e} (formula {:e}) dobj={:e} (formula {:e}) b'z={:e} x'Px={:e} |x|={:e} |z|={:e} |s|={:e} |P|max={:e} |q|={:e} |b|={:e}", s.solution.status, s.solution.iterations, s.solution.obj_val, 0.5 * xpx + qx, s.solution.obj_val_dual, -bz - 0.5 * xpx, bz, xpx, l1(&s.solution.x), l1(&s.solution.z), l1(&s.solution.s), pr.P.iter().map(|r| l1(r)).fold(0.0, f64::max), l1(&pr.q), l1(&pr.b));
+    }
     harvest(&s)
 }
 
@@ -1142,10 +1150,15 @@ fn pair_check(pr: &Prob, i: &Mapped, j: &Mapped) -> Result<f64, String> {
     // magnitudes entering the reported objectives and the cross terms
     let pxi = matvec(&pr.P, &i.x);
     let pxj = matvec(&pr.P, &j.x);
+    // (the products P·x are taken with absolute values term by term: for an x with a large
+    // component near the null space of P the entries of P·x are themselves cancellation results,
+    // and both the solver's reported objectives and this re-evaluation carry that rounding)
+    let absmv = |x: &[f64]| -> Vec<f64> { (0..n).map(|l| (0..n).map(|k| (pr.P[l][k] * x[k]).abs()).sum::<f64>()).collect() };
+    let (pxi_a, pxj_a) = (absmv(&i.x), absmv(&j.x));
     let mut oa = 0.0;
     for l in 0..n {
-        oa += (pr.q[l] * i.x[l]).abs() + 0.5 * (i.x[l] * pxi[l]).abs() + 0.5 * (j.x[l] * pxj[l]).abs()
-            + (i.x[l] * pxj[l]).abs();
+        oa += (pr.q[l] * i.x[l]).abs() + 0.5 * i.x[l].abs() * pxi_a[l] + 0.5 * j.x[l].abs() * pxj_a[l]
+            + i.x[l].abs() * pxj_a[l];
     }
     for k in 0..m {
         oa += (pr.b[k] * j.z[k]).abs() + (i.s[k] * j.z[k]).abs();
@@ -1153,9 +1166,16 @@ fn pair_check(pr: &Prob, i: &Mapped, j: &Mapped) -> Result<f64, String> {
     let allowance = 64.0 * ((n + m + 8) as f64) * EPS * (sc + oa);
     let lhs = j.dobj - i.pobj;
     if !(lhs <= exact + allowance) {
+        // the terms of the identity, for the report
+        let d: Vec<f64> = (0..n).map(|l| i.x[l] - j.x[l]).collect();
+        let pd = matvec(&pr.P, &d);
+        let dpd = 0.5 * dot(&d, &pd);
+        let sz = dot(&i.s, &j.z);
+        let pobj_i = 0.5 * dot(&i.x, &pxi) + dot(&pr.q, &i.x);
+        let dobj_j = -dot(&pr.b, &j.z) - 0.5 * dot(&j.x, &pxj);
         return Err(format!(
-            "dual objective of [{}] exceeds primal objective of [{}] by {:e} > residual slack rp_i.z_j - rd_j.x_i = {:e} (+ rounding allowance {:e})",
-            j.name, i.name, lhs, exact, allowance
+            "dual objective of [{}] exceeds primal objective of [{}] by {:e} > residual slack rp_i.z_j - rd_j.x_i = {:e} (+ rounding allowance {:e}); terms: dPd/2 = {:e}, s_i.z_j = {:e}, reported pobj_i = {:e} (recomputed {:e}), reported dobj_j = {:e} (recomputed {:e})",
+            j.name, i.name, lhs, exact, allowance, dpd, sz, i.pobj, pobj_i, j.dobj, dobj_j
         ));
     }
     let l1 = |v: &[f64]| v.iter().map(|x| x.abs()).sum::<f64>();
